@@ -227,7 +227,11 @@ func c08One(c *core.Ctx, s string, family string) {
 	}
 	v := RefSpec(s, opts, args)
 	sub := family == "random" && len(s)%3 == 0
-	out := drive.CompileSpec(s, sub, mask)
+	via := 0
+	if sub {
+		via = 1 + c.R.Intn(len(drive.CompileVias)-1)
+	}
+	out := drive.CompileSpec(s, via, mask)
 	if out.Pan != nil {
 		c.Violation(fmt.Sprintf("Run panicked with something that is not a positioned spec error: %v", out.Pan), nil, nil)
 		return
@@ -309,6 +313,9 @@ func c08One(c *core.Ctx, s string, family string) {
 		c.Inc("compiled")
 		if sub {
 			c.Inc("compiled_as_subcommand")
+			if via >= 2 {
+				c.Inc("compiled_on_a_help_path")
+			}
 		}
 		if c.WantSample() && len(s) > 8 && family != "chars" {
 			c.Sample(map[string]interface{}{"spec": s, "verdict": "compiles", "family": family})
@@ -318,6 +325,9 @@ func c08One(c *core.Ctx, s string, family string) {
 	c.Inc("rejected")
 	if sub {
 		c.Inc("rejected_as_subcommand")
+		if via >= 2 {
+			c.Inc("rejected_on_a_help_path")
+		}
 	}
 	if out.SpecErr.Pos < v.ErrLo || out.SpecErr.Pos > v.ErrHi {
 		c.Violation(fmt.Sprintf("error reported at %d, the offending token spans [%d,%d] (%s)", out.SpecErr.Pos, v.ErrLo, v.ErrHi, v.Msg), nil, nil)
